@@ -39,7 +39,7 @@ def gen_cases(ctx):
     for bits in itertools.product("01", repeat=depth):
         cases.append(("ex-binary", "ex 1,1 400 " + " ".join("r%s.0" % b for b in bits)))
     # (b) exhaustive bounded-context-switch prefixes: alternating blocks with run lengths from L
-    L = [1, 2, 3, 4, 6, 8, 9, 10, 11, 13] if th else [1, 2, 3, 6, 9, 10, 11]
+    L = [1, 2, 3, 5, 8, 9, 10, 12] if th else [1, 2, 3, 6, 9, 10, 11]
     nblocks = 4 if th else 3
     for iters in (["2,2", "1,2"] if th else ["2,2"]):
         for first in (0, 1):
@@ -53,7 +53,7 @@ def gen_cases(ctx):
         cases.append(("ex-spurious", "ex 2,2 600 " + " ".join(prelude + list(seq))))
     # (d) 3 threads: exhaustive ternary prefixes after a prelude that has two sleepers (wake choice matters)
     prelude3 = ["r0.0"] + ["r1.0"] * 9 + ["r2.0"] * 9
-    d3 = 6 if th else 4
+    d3 = 5 if th else 4
     for seq in itertools.product(["r0.0", "r0.1", "r1.0", "r2.0", "s1"], repeat=d3):
         cases.append(("ex-3threads", "ex 2,1,1 900 " + " ".join(prelude3 + list(seq))))
     # (e) random and PCT-style schedules, 2-4 threads
@@ -79,6 +79,63 @@ Definition chk (c : list nat * list N * N * N) : bool :=
 """
 
 
+CAS_HEADER = """From Aranya Require Import base.Tactics base.Harness base.Interleave model.Mutex.
+Open Scope N_scope.
+Definition chk (c : list nat * list nat * N * N) : bool :=
+  let '(ns, evs, d, f) := c in
+  let '(d', f') := cdigest evs (cinit ns) in N.eqb d d' && N.eqb f f'.
+"""
+
+
+def run_cas(ctx):
+    """Replay on the crate built with `cas_mutex` (sites 10/11) against model cstep."""
+    binc = vlib.cargo_build(ctx, "hx-conc", bin="c43cas", features=["cas"])
+    if not binc:
+        return {"built": False}
+    r = ctx.rng
+    lines = []
+    for bits in itertools.product("01", repeat=9 if ctx.thorough else 7):
+        lines.append("ex 1,1 400 " + " ".join("r%s.0" % b for b in bits))
+    for lens in itertools.product([1, 2, 3, 5], repeat=3):
+        for first in (0, 1):
+            lines.append("ex 2,2 600 " + " ".join(blocks_to_events([((first + i) % 2, k) for i, k in enumerate(lens)])))
+    for i in range(600 if ctx.thorough else 120):
+        n = r.choice([2, 3, 3, 4])
+        iters = ",".join(str(r.choice([1, 2, 3])) for _ in range(n))
+        lines.append("rnd %s 3000 %d 0 %d" % (iters, r.next() >> 1, 30 * n))
+    rc, out, err = conc_util.run_parallel(binc, lines)
+    if rc != 0 or len(out) != len(lines):
+        ctx.oblige("harness:run-cas", False, "rc=%d lines=%d/%d %s" % (rc, len(out), len(lines), err[-800:]))
+        return {"built": True, "ran": False}
+    items, bad = [], []
+    for line, l in zip(lines, out):
+        parts = l.split()
+        if parts[2] != "ok":
+            bad.append((line, parts[2]))
+        items.append((line.split()[1].split(","), [int(e[1:].split(".")[0]) for e in parts[4:]], int(parts[0]), int(parts[1])))
+    for (line, flags) in bad[:2]:
+        ctx.violation("CAS-only mutex violates its contract under a replayed schedule: " + flags,
+                      {"case_line": line, "flags": flags, "replay_cmd": "echo '%s' | build/target/debug/c43cas --trace" % line,
+                       "contradicts": "cas_mutex_exclusive (coq/props/C43.v)"})
+    ctx.oblige("oracle:cas-fallback-exclusive-on-impl", not bad, str(bad[:3]))
+
+    def render(chunk):
+        body = vlib.coq_list(chunk, lambda c: "(%s, %s, %d, %d)" % (
+            vlib.coq_list(c[0], lambda x: "%s%%nat" % x), vlib.coq_list(c[1], lambda x: "%d%%nat" % x), c[2], c[3]))
+        return "Definition cases : list (list nat * list nat * N * N) := %s.\nEval vm_compute in (mismatches chk cases).\n" % body
+    outs, chunks = vlib.coq_eval_sharded(ctx, "c43cas", CAS_HEADER, items, render, shard=max(200, (len(items) + 3) // 4), timeout=900)
+    mism, base = [], 0
+    for (rc3, o), ch in zip(outs, chunks):
+        v = vlib.parse_coq_value(o) if rc3 == 0 else None
+        if v is None:
+            ctx.oblige("correspondence:cas-model-eval", False, o[-1500:])
+            return {"built": True, "ran": True}
+        mism += [base + j for j in v]
+        base += len(ch)
+    ctx.oblige("correspondence:cas-model=impl", not mism, "%d of %d schedules differ; first: %s" % (len(mism), len(lines), lines[mism[0]][:120] if mism else ""))
+    return {"schedules": len(lines), "events": sum(len(it[1]) for it in items), "mismatches": len(mism)}
+
+
 def run(ctx):
     vlib.regen(ctx)
     proved = vlib.prove(ctx)
@@ -90,19 +147,15 @@ def run(ctx):
     stress_lines = ["stress 4 20000", "stress 12 3000", "stress 2 100000"] if not ctx.thorough else \
                    ["stress 4 200000", "stress 12 50000", "stress 2 1000000", "stress 3 300000"]
     rc, lines, err = conc_util.run_parallel(binp, [line for (_, line) in cases])
-    rcs, slines, errs = conc_util.run_parallel(binp, stress_lines, nproc=1)
-    lines = lines + slines if len(lines) == len(cases) else lines
-    out = ""
-    if rc != 0 or len(lines) != len(cases) + len(stress_lines):
-        # a hang (exit 3) leaves a flagged last line: treat as oracle failure below
-        if rc == 3 and lines:
-            pass
-        else:
-            ctx.oblige("harness:run", False, "rc=%d lines=%d/%d %s" % (rc, len(lines), len(cases), (out[-600:] + err[-1500:])))
-            return
+    if (rc not in (0, 3)) or (rc == 0 and len(lines) != len(cases)) or not lines:
+        ctx.oblige("harness:run", False, "rc=%d lines=%d/%d %s" % (rc, len(lines), len(cases), err[-1500:]))
+        return
+    rcs, stress_out, errs = conc_util.run_parallel(binp, stress_lines, nproc=1, timeout=900)
+    if len(stress_out) < len(stress_lines):
+        stress_out.append("stress crashed (rc=%d) %s" % (rcs, errs[-300:].replace("\n", " ")))
     results = []
     bad = []
-    for i, l in enumerate(lines[:len(cases)]):
+    for i, l in enumerate(lines):
         parts = l.split()
         if len(parts) < 4:
             ctx.oblige("harness:output", False, l[:200])
@@ -112,10 +165,7 @@ def run(ctx):
         results.append((digest, fin, flags, stats, evs))
         if flags != "ok":
             bad.append(i)
-    stress_out = lines[len(cases):]
     stress_bad = [l for l in stress_out if not l.startswith("stress ok")]
-    if len(results) == len(cases):
-        ctx.oblige("harness:stress-complete", len(stress_out) == len(stress_lines), "stress runs missing")
 
     # ---- oracle: exclusivity / no stuck state / no bug!() / no lost update, on the implementation's own run
     def replay_of(i):
@@ -181,6 +231,9 @@ def run(ctx):
                           dict(rp, model_trace=(mt or [])[:60], first_divergence=step), no_input=True)
     ctx.oblige("correspondence:model=impl", not mism, "%d of %d schedules differ; %s" % (len(mism), len(cases), detail))
 
+    # ---- the CAS-only fallback (feature cas_mutex): same replay against its own small model
+    cas_info = run_cas(ctx)
+
     fams = {}
     for (fam, _), (_, _, _, stats, evs) in zip(cases, results):
         f = fams.setdefault(fam, {"cases": 0, "events": 0, "with_sleep": 0, "with_spurious": 0, "with_cas_failure": 0, "wakes": 0})
@@ -200,6 +253,7 @@ def run(ctx):
                 "produced contention (a failed compare_exchange or a futex sleep); distinct by state-sequence digest",
         "distribution": fams,
         "stress_runs": stress_out,
+        "cas_fallback": cas_info,
         "samples": [{"case": cases[i][1][:160], "events": len(results[i][4]), "stats": results[i][3], "flags": results[i][2]} for i in (0, len(cases) // 2, len(cases) - 1)],
     })
     ctx.assumptions += [
